@@ -28,3 +28,12 @@ where
     *input = remaining;
     Ok(output)
 }
+
+/// Parses a decimal integer that makes up the whole input
+/// (`atoi::atoi` stops at the first byte that is not a digit and ignores the rest).
+pub fn parse_integer<T: atoi::FromRadix10SignedChecked>(input: &[u8]) -> Option<T> {
+    match T::from_radix_10_signed_checked(input) {
+        (Some(x), used) if used > 0 && used == input.len() => Some(x),
+        _ => None,
+    }
+}
